@@ -215,6 +215,7 @@ func c08(tier string) []*explore.Scenario {
 				out = append(out, c08EndToEnd(stream, transit, race))
 			}
 		}
+		out = append(out, c08ServeCtxCancelled(stream))
 		// the context handed to Serve has a deadline itself: later than every caller's, and in the middle of them
 		out = append(out, c08EndToEndS(stream, 0, false, 20000*time.Hour), c08EndToEndS(stream, 500*time.Microsecond, false, 30*time.Minute))
 	}
@@ -428,6 +429,52 @@ func c08EndToEndS(stream bool, transit time.Duration, ctxRace bool, serveTimeout
 				}
 			}
 			vsched.Count("inputs", int64(len(timeouts)))
+		},
+	}
+}
+
+// c08ServeCtxCancelled: the context that was handed to Serve is cancelled while
+// the Server is not stopped and the transport works. Whatever the server then
+// does with the connection, a call it still serves and whose caller has a
+// deadline runs its handler with a deadline too.
+func c08ServeCtxCancelled(stream bool) *explore.Scenario {
+	fam := "C08/end-to-end"
+	return &explore.Scenario{
+		Name: fmt.Sprintf("C08/end-to-end/serve-context-cancelled/stream=%v", stream), Family: fam, Prop: "C08", Bound: 1, Horizon: time.Nanosecond,
+		Run: func() {
+			w := env.NewWorld()
+			d := env.NewDirect(w, env.DirectOpts{Pipe: env.PipeOpts{Cap: 64}})
+			vsched.Settle()
+			vsched.Explore(true)
+			d.StopServe() // cancels the context given to Serve; Stop() is not called
+			vsched.Quiesce()
+			ctx, cancel := context.WithTimeout(context.Background(), 5*time.Second)
+			defer cancel()
+			var r *env.Rec
+			if stream {
+				r = w.Rec("s", "Bidi")
+				w.Handlers["s"] = func(r *env.Rec, ss grpc.ServerStream) error { return nil }
+				vsched.GoNamed("caller", func() {
+					if cs := w.Open(d.CC, ctx, r); cs != nil {
+						env.CRecvAll(r, cs)
+					}
+					r.CDone = true
+				})
+			} else {
+				r = w.Rec("u", "Unary")
+				vsched.GoNamed("caller", func() { w.CallUnary(d.CC, ctx, r, "x") })
+			}
+			vsched.Quiesce()
+			vsched.Obs("serveDone=%v handler starts=%d", d.ServeDone, r.HStarts)
+			if r.HStarts > 0 {
+				if _, has := r.HCtx.Deadline(); !has {
+					vsched.Fail(fam+"|deadline-lost", "the context given to Serve was cancelled; a call with a 5 s deadline was still served, and its handler's context has no deadline")
+				}
+			}
+			cancel()
+			d.Pipe.A.Break()
+			d.Pipe.B.Break()
+			vsched.Quiesce()
 		},
 	}
 }
